@@ -170,7 +170,7 @@ def c07(prop, tier, seed, core):
     m["violations"].extend(extra_viol)
     # hostile scenarios, one process each
     # also 2^32 span ids on one thread (the per-thread counter wraps; about ten seconds)
-    add_hostile(m, core, prop, work, tier, HOSTILE + ["id-counter-wrap", "deep-backlog", "deep-backlog-cancel", "set-reporter-vs-cycles", "plain:reporter-panicked-earlier"], known_sigs)
+    add_hostile(m, core, prop, work, tier, HOSTILE + ["id-counter-wrap", "deep-backlog", "deep-backlog-cancel", "set-reporter-vs-cycles", "plain:reporter-panicked-earlier", "plain:reporter-needs-stack"], known_sigs)
     if tier == "thorough":
         add_sanitizers(m, core, prop, work, seed)
     m["rule"] = (core.RULES["progsim"] + " C07 adds: programs from a hostile profile (40% no-op parents, empty parent sets, 25% unsampled roots, property "
@@ -275,7 +275,7 @@ def c01(prop, tier, seed, core):
         add_tsan_quick(m, core, prop, os.path.join(core.WORK, prop), seed)
         m["rule"] = core.RULES["progsim"] + " The quick tier also runs the stress engine (4500 jobs, two configurations) in a ThreadSanitizer build with an instrumented standard library; a report is a violation."
     # the background collector on its own: a delayed last command followed by silence
-    add_hostile(m, core, prop, os.path.join(core.WORK, prop), tier, ["lone-late-send", "reconfigure-interval", "flush-delivers-what-finished-before-it", "plain:slow-report-overruns-interval", "plain:threads-exactly-once", "plain:set-reporter-while-reporting", "big-cycle-late-signal"], [e["signature"] for e in core.known_for(prop)])
+    add_hostile(m, core, prop, os.path.join(core.WORK, prop), tier, ["lone-late-send", "reconfigure-interval", "flush-delivers-what-finished-before-it", "plain:slow-report-overruns-interval", "plain:threads-exactly-once", "plain:set-reporter-while-reporting", "big-cycle-late-signal", "reporter-traces"], [e["signature"] for e in core.known_for(prop)])
     m["rule"] += (" One separate process: 36 rounds in which a thread's last command is held up for 0.5-9.5 ms right before it enters the queue, the thread exits, "
                   "and nothing calls into the library afterwards; the background collector (2 ms interval) must report the span. Another process configures a 1 h report interval, then re-configures 5 ms and waits for "
                   "background delivery.")
@@ -307,7 +307,7 @@ def c04(prop, tier, seed, core):
     work = os.path.join(core.WORK, prop)
     known_sigs = [e["signature"] for e in core.known_for(prop)]
     # a cancel parked behind more forced commands than the ring has slots (one process)
-    add_hostile(m, core, prop, work, tier, ["deep-backlog-cancel", "overlapping-flushes-cancelable", "tls-cancel-in-destructor-cancelable", "plain:cancel-config-matrix"], known_sigs)
+    add_hostile(m, core, prop, work, tier, ["deep-backlog-cancel", "overlapping-flushes-cancelable", "tls-cancel-in-destructor-cancelable", "plain:cancel-config-matrix", "many-busy-queues-cancel-cancelable"], known_sigs)
     m["rule"] = core.RULES["progsim"] + (" One separate process parks 10300 cancels of a bystander trace and then the cancel of a victim trace behind a full ring "
                                           "(more forced commands than the ring has slots), lets the collector catch up and finishes the roots: nothing of either trace may be delivered, a later trace must be complete. Another process keeps a flush() inside a slow report() while a root is cancelled, a second "
                                           "flush() starts on another thread and late children finish: nothing of the cancelled trace may come out, a bystander trace must come out whole, once. A third one cancels and drops roots inside user thread-local destructors (every initialisation order).")
